@@ -51,9 +51,9 @@ DirNames == {S.dirs[j].name : j \in 1..Len(S.dirs)}
 DD == [n \in DirNames |-> S.dirs[CHOOSE j \in 1..Len(S.dirs) : S.dirs[j].name = n]]
 Known(n) == n \in TypeNames
 KindOf(n) == IF Known(n) THEN TD[n].kind ELSE ""
-Composite(n) == KindOf(n) \in {"OBJECT", "INTERFACE", "UNION"}
-LeafT(n)     == KindOf(n) \in {"SCALAR", "ENUM"}
-InputT(n)    == KindOf(n) \in {"SCALAR", "ENUM", "INPUT_OBJECT"}
+Composite(n) == IsCompositeKind(KindOf(n))
+LeafT(n)     == IsLeafKind(KindOf(n))
+InputT(n)    == IsInputKind(KindOf(n))
 Lookup(seq, name) == LET idx == {j \in 1..Len(seq) : seq[j].name = name}
                      IN IF idx = {} THEN <<>> ELSE <<seq[Min(idx)]>>
 PossibleOf(n) == LET e == Lookup(S.possible, n) IN IF e = <<>> THEN {} ELSE Range(e[1].of)
